@@ -177,6 +177,10 @@ def main(tier):
                   ("i=0; while i<25 { i=i+1; `{% if i>0 { continue } %}` }; `{i}|{% if 1 { 2 } %}|`", "25||", "", None),
                   ("i=0; s=''; while i<30 { i=i+1; s=`{s}{% if i%2==0 { continue }; i %}` }; s", "1357911131517192123252729", "", None),
                   ("i=0; while i<40 { i=i+1; `{ `{% if i>22 { break } %}` }` }; `<{i}>`", "<23>", "", None),
+                  # embedded code never disturbs the part already assembled: a later hole that modifies a container an earlier hole showed
+                  ("a = [1]; `{a}{% a[0] = 2 %}`", "[1]2", "", None), ("a = [1]; `{a}|{% a.push(5); a %}|{a}`", "[1]|[1, 5]|[1, 5]", "", None),
+                  ("mp = {'k':1}; `{mp}{% mp.k = 2 %}{mp}`", "{'k': 1}2{'k': 2}", "", None), ("a = [[1]]; `{a}{% a[0].push(2) %}{a[0]}`", "[[1]][1, 2][1, 2]", "", None),
+                  ("a = [1]; `<{ `{a}` }{% a.pop() %}{a}>`", "<[1]1[]>", "", None),
                   ("`{% if 1 { `{1}` } %}{% if 1 { 2 } %}`", "", "", None), ("`{ `{ `{1}` }` }{% if 1 { 3 } %}`", "1", "", None)]
         lines = [f"runseq L100000 - {hx(src)}" + (f" {hx(check[2:])}" if check else "") for src, val, check, we in progs]
         out = run.go_only("templates", lines, go_timeout=300)
